@@ -117,6 +117,8 @@ impl Actor {
         while let Some(msg) = self.recv.recv().await {
             // if we get a snapshot message here we don't need to do a write transaction
             let msg = if let Message::Snapshot { res } = msg {
+                #[cfg(iroh_verif)]
+                iroh_base::verif::event("dnssrv.store.snapshot_outside_batch", String::new);
                 let snapshot = Snapshot::new(&self.db)?;
                 res.send(snapshot).ok();
                 continue;
@@ -127,6 +129,8 @@ impl Actor {
             self.recv.push_back(msg).unwrap();
             let transaction = self.db.begin_write().anyerr()?;
             let mut tables = Tables::new(&transaction).anyerr()?;
+            #[cfg(iroh_verif)]
+            iroh_base::verif::event("dnssrv.store.batch_begin", String::new);
             let timeout = tokio::time::sleep(self.options.max_batch_time);
             tokio::pin!(timeout);
             for _ in 0..self.options.max_batch_size {
@@ -134,6 +138,8 @@ impl Actor {
                     _ = self.cancel.cancelled() => {
                         drop(tables);
                         transaction.commit().anyerr()?;
+                        #[cfg(iroh_verif)]
+                        iroh_base::verif::event("dnssrv.store.commit", || "cancel".to_string());
                         return Ok(());
                     }
                     _ = &mut timeout => break,
@@ -142,11 +148,15 @@ impl Actor {
             }
             drop(tables);
             transaction.commit().anyerr()?;
+            #[cfg(iroh_verif)]
+            iroh_base::verif::event("dnssrv.store.commit", || "batch".to_string());
         }
         Ok(())
     }
 
     fn handle_message(&self, msg: Message, tables: &mut Tables) -> Result<()> {
+        #[cfg(iroh_verif)]
+        iroh_base::verif::event("dnssrv.store.msg", || format!("{msg:?}"));
         match msg {
             Message::Get { key, res } => match get_packet(&tables.signed_packets, &key) {
                 Ok(packet) => {
@@ -221,6 +231,10 @@ impl Actor {
                         let expiry_us = self.options.eviction.as_micros() as u64;
                         let expired = Timestamp::from_micros(
                             Timestamp::now().as_micros().saturating_sub(expiry_us),
+                        );
+                        #[cfg(iroh_verif)]
+                        let expired = Timestamp::from_micros(
+                            iroh_base::verif::clock_micros("dnssrv.evict.now", expired.as_micros()),
                         );
                         if packet.timestamp() < expired {
                             tables
@@ -437,6 +451,8 @@ async fn evict_task(send: mpsc::Sender<Message>, options: Options, cancel: Cance
 async fn evict_task_inner(send: mpsc::Sender<Message>, options: Options) -> Result<()> {
     let expiry_us = options.eviction.as_micros() as u64;
     loop {
+        #[cfg(iroh_verif)]
+        iroh_base::verif::pause_async("dnssrv.evict.cycle_start").await;
         let (tx, rx) = oneshot::channel();
         let _ = send.send(Message::Snapshot { res: tx }).await.ok();
         // if we can't get the snapshot we exit the loop, main actor dead
@@ -444,6 +460,11 @@ async fn evict_task_inner(send: mpsc::Sender<Message>, options: Options) -> Resu
 
         let expired =
             Timestamp::from_micros(Timestamp::now().as_micros().saturating_sub(expiry_us));
+        #[cfg(iroh_verif)]
+        let expired = Timestamp::from_micros(iroh_base::verif::clock_micros(
+            "dnssrv.evict.now",
+            expired.as_micros(),
+        ));
         trace!("evicting packets older than {}", fmt_time(expired));
         // if getting the range fails we exit the loop and shut down
         // if individual reads fail we log the error and limp on
@@ -478,6 +499,8 @@ async fn evict_task_inner(send: mpsc::Sender<Message>, options: Options) -> Resu
                 let key = PublicKeyBytes::new_unchecked(key.value());
 
                 debug!("evicting expired packet {} {}", fmt_time(time), key);
+                #[cfg(iroh_verif)]
+                iroh_base::verif::pause_async("dnssrv.evict.before_check_expired").await;
                 send.send(Message::CheckExpired { time, key })
                     .await
                     .anyerr()?;
